@@ -40,7 +40,8 @@ type xOutput struct {
 	guard    string // "" | accept | reject | atleast2
 	inverted bool
 	bang     bool // the pattern's variable is named "?v!" (a permanent binding) instead of "?v"
-	propVar  bool // the pattern is {"?p": key}: some property (which one is left open) has the value
+	propVar  bool // the pattern is {"?p": key}
+	multi    int  // >0: the pattern also asks for "tags":["?t"], and each of its lines carries that many tags (so one line matches in several ways): some property (which one is left open) has the value
 }
 
 type xLine struct {
@@ -83,6 +84,11 @@ func xAccepts(o xOutput, m map[string]interface{}) bool {
 	}
 	if m["k"] != o.key {
 		return false
+	}
+	if o.multi > 0 {
+		if tags, _ := m["tags"].([]interface{}); len(tags) == 0 {
+			return false
+		}
 	}
 	v, hasV := m["v"].(float64)
 	if o.withVar && !hasV {
@@ -137,6 +143,9 @@ func runC19(c *sim.Ctx, t *testing.T) {
 			if !o.withVar && c.Chance(1, 5, "propvar") {
 				o.propVar = true
 			}
+			if !o.withVar && !o.propVar && c.Chance(1, 4, "multi") {
+				o.multi = 2 + c.Intn(2, "multiways")
+			}
 			if o.withVar {
 				o.bang = c.Chance(1, 3, "bangvar")
 				o.guard = []string{"", "accept", "atleast2", "atleast2", "throwlow"}[c.Intn(5, "guard")]
@@ -157,8 +166,19 @@ func runC19(c *sim.Ctx, t *testing.T) {
 			if o.withVar {
 				m["v"] = v
 			}
+			if o.multi > 0 {
+				m["tags"] = []interface{}{"door", "window", "roof"}[:o.multi]
+			}
 			b, _ := json.Marshal(m)
 			return string(b)
+		}
+		// a long line: more than any reader's buffer holds (an error with a stack trace, a dump of bindings)
+		pad := func(text string, why string) string {
+			if !strings.HasPrefix(text, "{") || !c.Chance(1, 3, why) {
+				return text
+			}
+			n := []int{4090, 5000, 70000}[c.Intn(3, "padsize")]
+			return `{"pad":"` + strings.Repeat("x", n) + `",` + text[1:]
 		}
 		for _, o := range st.outputs {
 			if !o.inverted {
@@ -210,7 +230,7 @@ func runC19(c *sim.Ctx, t *testing.T) {
 			if !hasInv {
 				st.outputs = append(st.outputs, xOutput{key: fmt.Sprintf("s%d", i), inverted: true})
 			}
-			bad := xLine{text: fmt.Sprintf(`{"bad":"s%d"}`, i), delay: 5 * time.Millisecond, why: "forbidden"}
+			bad := xLine{text: pad(fmt.Sprintf(`{"bad":"s%d"}`, i), "bigforbidden"), delay: 5 * time.Millisecond, why: "forbidden"}
 			k := c.Intn(len(st.lines), "forbiddenpos") // before the last required line
 			st.lines = append(st.lines[:k], append([]xLine{bad}, st.lines[k:]...)...)
 		case "forbidden-seen-before":
@@ -246,7 +266,7 @@ func runC19(c *sim.Ctx, t *testing.T) {
 			}
 			st.outputs = append(rest, xOutput{key: fmt.Sprintf("s%d", i), inverted: true, withVar: true, guard: "atleast2"})
 			lo := xLine{text: fmt.Sprintf(`{"bad":"s%d","v":1}`, i), delay: 5 * time.Millisecond, why: "matches the forbidden pattern, rejected by its guard"}
-			hi := xLine{text: fmt.Sprintf(`{"bad":"s%d","v":2}`, i), delay: 5 * time.Millisecond, why: "forbidden"}
+			hi := xLine{text: pad(fmt.Sprintf(`{"bad":"s%d","v":2}`, i), "bigforbidden"), delay: 5 * time.Millisecond, why: "forbidden"}
 			k := c.Intn(len(st.lines), "forbiddenpos")
 			st.lines = append(st.lines[:k], append([]xLine{lo, hi}, st.lines[k:]...)...)
 		case "forbidden-in-required":
@@ -293,6 +313,10 @@ func runC19(c *sim.Ctx, t *testing.T) {
 		case "reject-all":
 			st.outputs[0].guard = "reject"
 		}
+		if len(st.lines) > 0 && c.Chance(1, 8, "bigexpected") {
+			k := c.Intn(len(st.lines), "bigwhich")
+			st.lines[k].text = pad(st.lines[k].text, "bigexpected2")
+		}
 		steps[i] = st
 	}
 
@@ -325,6 +349,9 @@ func runC19(c *sim.Ctx, t *testing.T) {
 			} else if o.propVar {
 				// the only property of the stream's messages that can hold the key is "k"
 				pat = map[string]interface{}{"?p": o.key}
+			}
+			if o.multi > 0 {
+				pat["tags"] = []interface{}{"?t"}
 			}
 			iop.OutputSet = append(iop.OutputSet, Output{Pattern: pat, GuardSource: xGuardSrc(o.guard, o.bang), Inverted: o.inverted})
 		}
@@ -449,6 +476,9 @@ func xRunOnce(c *sim.Ctx, t *testing.T, sess *Session, steps []*xStep, runNo int
 			if o.withVar {
 				kind += ",v=?v"
 			}
+			if o.multi > 0 {
+				kind += `,tags=["?t"]`
+			}
 			if o.guard != "" {
 				kind += " guard:" + o.guard
 			}
@@ -456,12 +486,20 @@ func xRunOnce(c *sim.Ctx, t *testing.T, sess *Session, steps []*xStep, runNo int
 		}
 		desc += "; child writes"
 		for _, ln := range st.lines {
-			desc += fmt.Sprintf(" +%v %s;", ln.delay, ln.text)
+			text := ln.text
+			if len(text) > 200 {
+				text = fmt.Sprintf("%s...(%d bytes)...%s", text[:40], len(text), text[len(text)-80:])
+			}
+			desc += fmt.Sprintf(" +%v %s;", ln.delay, text)
 		}
 	}
 	for _, e := range evs {
 		c.MixHash(fmt.Sprintf("%d %s %d %s %s %v %s", e.Seq, e.Kind, e.N, e.Id, e.Val, e.At, e.Err))
-		c.Logf("ev %d t=%v %s step=%d %s %s %s", e.Seq, e.At, e.Kind, e.N, e.Id, e.Val, e.Err)
+		val := e.Val
+		if len(val) > 200 {
+			val = fmt.Sprintf("%s...(%d bytes)", val[:60], len(val))
+		}
+		c.Logf("ev %d t=%v %s step=%d %s %s %s", e.Seq, e.At, e.Kind, e.N, e.Id, val, e.Err)
 	}
 	// the stream as the child produced it
 	readAt := map[int]time.Duration{}
@@ -550,6 +588,16 @@ func xRunOnce(c *sim.Ctx, t *testing.T, sess *Session, steps []*xStep, runNo int
 	c.Count("sessions")
 	for _, st := range steps {
 		c.Count("fault_" + st.fault)
+		for _, o := range st.outputs {
+			if o.multi > 0 {
+				c.Count("outputs_matched_in_several_ways_by_one_line")
+			}
+		}
+		for _, ln := range st.lines {
+			if len(ln.text) > 4096 {
+				c.Count("lines_longer_than_4096_bytes")
+			}
+		}
 	}
 	if !returned {
 		if neverArrives || why != "" {
